@@ -126,6 +126,14 @@ class World:
         if kind_of(obj) not in (None, "opin"):
             hash(obj)  # fix the identity hash now, so that later oracle/listener activity cannot shift it
 
+    def release(self, handle):
+        """Forget a handle (the object is no longer a root of fingerprints and scans; later events skip it)."""
+        obj = self.handles.pop(handle, None)
+        if obj is not None:
+            self.order.remove(handle)
+            if self.rev.get(id(obj)) == handle:
+                del self.rev[id(obj)]
+
     def h(self, handle):
         return self.handles.get(handle)
 
